@@ -42,6 +42,9 @@ fn u32at(b: &[u8], o: usize) -> usize { u16at(b, o) | u16at(b, o + 2) << 16 }
 
 pub struct Creds { pub domain: String, pub user: String, pub password: String, pub from_hash: bool }
 
+/// set while conforming challenges are generated: every one of them must be answered with a token
+pub static EXPECT_TOKEN: std::sync::atomic::AtomicBool = std::sync::atomic::AtomicBool::new(false);
+
 pub fn run_auth(em: &mut Emitter, c: &Creds, chal: &[u8]) {
     let nt_hash = md4(&utf16(&c.password));
     let key = ntowfv2(&nt_hash, &c.user, &c.domain);
@@ -80,6 +83,7 @@ pub fn run_auth(em: &mut Emitter, c: &Creds, chal: &[u8]) {
     if let Some(t) = &tok { line.push_str(&format!(" tok={}", hex(t))); }
     let mut obs = Obs::new(out.clone()).nt(tok.is_some()).tag(if c.from_hash { "from_hash" } else { "password" });
     if out == "P" { obs = obs.viol("panic").tag("panic"); }
+    else if tok.is_none() && EXPECT_TOKEN.load(std::sync::atomic::Ordering::Relaxed) { obs = obs.viol("no AUTHENTICATE token for a conforming CHALLENGE"); }
     if peak > (1 << 20) { obs = obs.viol(&format!("allocation request of {} bytes", peak)); }
     em.case(&line, move || obs);
 }
@@ -121,6 +125,8 @@ fn target_info(r: &mut Rng, with_ts: bool) -> Vec<u8> {
     if r.chance(2, 3) { v.extend(av(1, &utf16("SRV"))); }
     if r.chance(1, 2) { v.extend(av(4, &utf16("dom.example"))); }
     if r.chance(1, 3) { v.extend(av(6, &[2, 0, 0, 0])); }
+    // zero-length values are legal (an empty DNS tree name, say) and do not end the list
+    if r.chance(1, 4) { v.extend(av(*r.pick(&[5u16, 3, 4, 9]), &[])); }
     if with_ts { v.extend(av(7, &r.bytes(8))); }
     if r.chance(1, 4) { v.extend(av(9, &utf16("TERMSRV/host"))); }
     if r.chance(1, 6) { let n = r.below(40) as usize; v.extend(av(3, &r.bytes(n))); }
@@ -130,6 +136,7 @@ fn target_info(r: &mut Rng, with_ts: bool) -> Vec<u8> {
 
 /// C15: every flag combination the client reacts to x credential sets x target-info shapes
 pub fn generate_c15(thorough: bool, seed: u64, _part: (usize, usize), em: &mut Emitter) {
+    EXPECT_TOKEN.store(true, std::sync::atomic::Ordering::Relaxed);
     let mut r = Rng::new(seed ^ 0xC15);
     let n = if thorough { 40000 } else { 2500 };
     for i in 0..n {
